@@ -1757,6 +1757,40 @@ fn main() {
             println!("accepted_prefixes={}", accepted);
             println!("first_accepted={}", first);
         }
+        // batch_codec : batches of 0..3 operations (puts and deletes in every pattern; empty, short, 127 / 128 / 300 / 20000 byte keys
+        // and values; several starting sequences) are encoded and decoded again by the real codec
+        "batch_codec" => {
+            let lens = [0usize, 1, 5, 127, 128, 300, 20000];
+            let (mut n, mut bad, mut first) = (0usize, 0usize, String::new());
+            let mut shapes: Vec<Vec<(bool, usize, usize)>> = vec![vec![]];
+            for count in 1..=3usize {
+                for pattern in 0..(1u32 << count) {
+                    for shift in 0..lens.len() {
+                        shapes.push((0..count).map(|i| (pattern >> i & 1 == 1, lens[(shift + 2 * i) % lens.len()], lens[(shift + 3 * i + 1) % lens.len()])).collect());
+                    }
+                }
+            }
+            for (si, shape) in shapes.iter().enumerate() {
+                for start in [0u64, 1, 300, (1u64 << 56) - 4, u64::MAX] {
+                    let ops: Vec<(bool, Vec<u8>, Vec<u8>)> = shape.iter().enumerate().map(|(i, (p, kl, vl))| (*p, vec![b'k' + i as u8; *kl], if *p { vec![b'v' + i as u8; *vl] } else { vec![] })).collect();
+                    let want: Vec<(bool, Vec<u8>, Option<Vec<u8>>)> = ops.iter().map(|(p, k, v)| (*p, k.clone(), if *p { Some(v.clone()) } else { None })).collect();
+                    n += 1;
+                    let ok = match std::panic::catch_unwind(|| v::batch_codec_roundtrip(start, &ops)) {
+                        Ok(Ok((s, got))) => s == Some(start) && got == want,
+                        _ => false,
+                    };
+                    if !ok {
+                        bad += 1;
+                        if first.is_empty() {
+                            first = format!("shape#{} {:?} start {}", si, shape, start);
+                        }
+                    }
+                }
+            }
+            println!("batches={}", n);
+            println!("mismatches={}", bad);
+            println!("first_mismatch={}", first);
+        }
         // table_block_corruption_sweep : one table (several data blocks, filter block); every byte of the file is inverted in
         // turn; after each damage every stored key is looked up: the lookup must fail or return the stored value
         "table_block_corruption_sweep" => {
